@@ -162,6 +162,23 @@ func CheckUciHistory(sc *Scenario, out *UciRunOut, res *RunResult) {
 				}
 			}
 		}
+		if c13 && !raceEnabled && (g.limits.WTime > 0 || g.limits.BTime > 0) && g.limits.MoveTime == 0 {
+			remain, inc := g.limits.WTime, g.limits.WInc
+			if !g.root.WhiteTo {
+				remain, inc = g.limits.BTime, g.limits.BInc
+			}
+			if remain > 0 {
+				if b, err := TimeBudget(g.root.Fen(), &g.limits); err == nil {
+					res.count("allotted_samples", 1)
+					if int64(b) > remain*1_000_000 {
+						res.addViolation("C13", "budget_exceeds_remaining", fmt.Sprintf("%q on %s: engine allots %d ms but only %d ms remain", g.line, g.root.Fen(), int64(b)/1_000_000, remain))
+					}
+					if bad := allotmentRepeatedFits(int64(b), remain*1_000_000, inc*1_000_000, g.limits.MovesToGo); bad != "" {
+						res.addViolation("C13", "budget_repeated_does_not_fit", fmt.Sprintf("%q on %s: %s", g.line, g.root.Fen(), bad))
+					}
+				}
+			}
+		}
 		if c13 && !excl {
 			// depth limit: completes exactly d iterations unless single legal move
 			if g.limits.Depth > 0 && g.stopT < 0 && g.limits.Nodes == 0 && !g.limits.TimeControlled() && !g.limits.needsStop() {
